@@ -48,7 +48,7 @@ fn gen_case(s: &mut Src) -> Case {
     let long_run = s.alt(3, &["members_short", "member_with_long_run"]) == 1;
     let nf = s.alt(2, &["objstm_unfiltered", "objstm_one_filter", "objstm_two_filters"]);
     let mut filters = Vec::new();
-    for _ in 0..nf { let k = s.draw(5) as u8; s.label(["f_AHx", "f_A85", "f_RL", "f_LZW", "f_Flate"][k as usize]); filters.push(k); }
+    for _ in 0..nf { let k = s.draw(6) as u8; s.label(["f_AHx", "f_A85", "f_RL", "f_LZW", "f_Flate", "f_LZW_early0_with_parms"][k as usize]); filters.push(k); }
     let filter_tape: Vec<u32> = (0..24).map(|_| s.draw(64)).collect();
     let stream_data = s.bytes(50);
     let length_mode = s.alt(2, &["length_direct", "length_ref_direct", "length_ref_compressed"]) as u8;
@@ -60,10 +60,17 @@ fn encode_chain(filters: &[u8], tape: &[u32], data: &[u8]) -> (Vec<(Vec<u8>, Obj
     let mut s = Src::replay(tape);
     let mut cur = data.to_vec();
     for &k in filters.iter().rev() {
-        cur = match k { 0 => codec::hex_encode(&cur, &mut s), 1 => codec::a85_encode(&cur, &mut s), 2 => codec::rl_encode(&cur, &mut s), 3 => codec::lzw_encode(&cur, 1, &mut s), _ => codec::flate_encode(&cur, &mut s) };
+        // 5 = LZW written with /EarlyChange 0, which the reader only decodes with the filter's own /DecodeParms entry
+        cur = match k { 0 => codec::hex_encode(&cur, &mut s), 1 => codec::a85_encode(&cur, &mut s), 2 => codec::rl_encode(&cur, &mut s), 3 => codec::lzw_encode(&cur, 1, &mut s), 5 => codec::lzw_encode(&cur, 0, &mut s), _ => codec::flate_encode(&cur, &mut s) };
     }
-    let f = if filters.len() == 1 { name(FNAMES[filters[0] as usize]) } else { Obj::Arr(filters.iter().map(|&k| name(FNAMES[k as usize])).collect()) };
-    (vec![(b"Filter".to_vec(), f)], cur)
+    let fname = |k: u8| name(if k == 5 { "LZWDecode" } else { FNAMES[k as usize] });
+    let f = if filters.len() == 1 { fname(filters[0]) } else { Obj::Arr(filters.iter().map(|&k| fname(k)).collect()) };
+    let mut d = vec![(b"Filter".to_vec(), f)];
+    if filters.contains(&5) {
+        let parm = |k: u8| if k == 5 { mkpdf::dict(vec![("EarlyChange", Obj::Int(0))]) } else { Obj::Null };
+        d.push((b"DecodeParms".to_vec(), if filters.len() == 1 { parm(filters[0]) } else { Obj::Arr(filters.iter().map(|&k| parm(k)).collect()) }));
+    }
+    (d, cur)
 }
 
 /// twin documents: (direct, compressed). Object 5 is the value; object 10 the stream; 11 its length when indirect.
@@ -90,6 +97,8 @@ fn build(c: &Case) -> (Vec<u8>, Vec<u8>) {
             else { members.push((20 + i as u32, if (i % 2 == 0) != c.header_tight { Obj::Int(i as i64 * 7) } else { mkpdf::dict(vec![("F", Obj::Int(i as i64))]) })); }
         }
         if c.long_run { members.insert(0, (19, Obj::Str(vec![b'a'; 200]))); }
+        // enough incompressible bytes for the LZW code width to change (only then /EarlyChange matters)
+        if c.filters.contains(&5) { members.insert(0, (18, Obj::Str((0..700u32).map(|i| (i.wrapping_mul(2654435761) >> 13) as u8).collect()))); }
         if c.length_mode == 2 { members.insert(0, (11, Obj::Int(c.stream_data.len() as i64))); }
         let tape = RefCell::new(c.filter_tape.clone());
         let enc = |d: &[u8]| encode_chain(&c.filters, &tape.borrow(), d);
